@@ -26,7 +26,7 @@ class Inconclusive(BaseException):
     """Solver said unknown or an engine limit was hit: the whole check is inconclusive."""
 
 
-class ReplayDivergence(Exception):
+class ReplayDivergence(BaseException):
     """Concrete replay did not follow the recorded choices."""
 
 
